@@ -998,13 +998,14 @@ func (p *Parser) parseBasicInsertValues() ([]valueAccessor, bool, error) {
 	for {
 		p.skipBlanks()
 		itemStart = p.pos
+		itemLine, itemCol := p.lineNum, p.colNum()
 
 		if ma, ok, err := p.parseInputMemberAccessor(); err != nil {
 			return nil, false, err
 		} else if ok {
 			inputParsed = true
 			if ma.memberName == "*" {
-				return nil, false, fmt.Errorf("internal error: cannot have asterisk accessor in renaming expression")
+				return nil, false, errorAt(fmt.Errorf("internal error: cannot have asterisk accessor in renaming expression"), itemLine, itemCol, p.input)
 			}
 			vs = append(vs, ma)
 		} else if ok, err = p.skipLiteralInList(); err != nil {
